@@ -162,7 +162,7 @@ class ThreadedSession:
         from geckolib.automation.facade import GeckoFacade
 
         self.peer = peer or SimPeer(snapshot)
-        self.w2 = W2()
+        self.w2 = W2(helper_threads=True)        # the spa's ping thread runs (cooperatively, on the virtual clock)
         self.w2.__enter__()
         self.spa = GeckoSpa(Descriptor())
         self.sock = MockSock(self.w2.clock)
@@ -184,7 +184,8 @@ class ThreadedSession:
                     continue
                 with contextlib.redirect_stdout(io.StringIO()):
                     replies = self.peer.on_datagram(data, ("10.0.0.2", 40001))
-                for reply, _d in replies:
+                for item in replies:
+                    reply = item[0]
                     if self.drop and self.drop(reply, "s2c"):
                         continue
                     self.sock.inbox.append((reply, self.peer.addr))
@@ -206,7 +207,12 @@ class ThreadedSession:
         return [d for (_, d, _) in self.sock.wire]
 
     def close(self):
-        self.w2.__exit__(None, None, None)
+        try:
+            with contextlib.redirect_stdout(io.StringIO()):
+                if self.spa.isopen:
+                    self.spa.complete()          # closes the socket: the ping thread sees it and ends
+        finally:
+            self.w2.__exit__(None, None, None)
 
     def __enter__(self):
         return self
